@@ -7,7 +7,9 @@
    shape [-]d.ddd…e[+-]dd…, reading a printed finite value gives it back, bit equality is reflexive).
 
    The model's `ke` flag is `true` for the repaired json::dumpToString (object keys escaped like
-   string values: fixes/C24-1.patch); `false` is the pinned source and is refuted below. *)
+   string values: fixes/C24-1.patch); `false` is the pinned source and is refuted below.
+   `lv` / `fv` name the variant of primitive::load in the tree (pinned, or with fixes/C14-1 / C14-2, which
+   type literals by value); every theorem holds for all four combinations. *)
 From Coq Require Import List NArith ZArith Bool.
 From OV.C24 Require Import Model Spec PBytes PNum PLoad Proofs PDet.
 Import ListNotations.
@@ -23,6 +25,7 @@ Section Statements.
   Variable eq64 : F64 -> F64 -> bool.
   Variable fin32 : F32 -> bool.
   Variable fin64 : F64 -> bool.
+  Variables lv fv : bool.
   Hypothesis print32_shape : forall x, fin32 x = true -> sci_shape (print32 x) = true.
   Hypothesis print64_shape : forall x, fin64 x = true -> sci_shape (print64 x) = true.
   Hypothesis parse32_print32 : forall x, fin32 x = true -> parse32 (print32 x ++ [102%N]) = x.
@@ -33,12 +36,12 @@ Section Statements.
   Notation json := (json F32 F64).
   Notation dump_top := (dump_top F32 F64 print32 print64).
   Notation dump := (dump F32 F64 print32 print64).
-  Notation parse := (parse F32 F64 parse32 parse64).
-  Notation load := (load F32 F64 parse32 parse64).
+  Notation parse := (parse F32 F64 parse32 parse64 lv fv).
+  Notation load := (load F32 F64 parse32 parse64 lv fv).
   Notation json_eq := (json_eq F32 F64 eq32 eq64).
   Notation json_same := (json_same F32 F64 eq32 eq64).
   Notation wf := (wf F32 F64 fin32 fin64).
-  Notation reparsed := (reparsed F32 F64 print32 print64).
+  Notation reparsed := (reparsed F32 F64 print32 print64 lv).
 
   (* MAIN: for every well-formed value (no `none` node, numbers built through the API, finite and in
      range, no NUL byte, non-empty keys, std::map order) and every indentation, parsing the dump
@@ -48,18 +51,18 @@ Section Statements.
   Proof.
     intros indent v H. exists (reparsed v). split.
     - unfold Model.parse.
-      now rewrite (parse_dump_exact F32 F64 print32 print64 parse32 parse64 fin32 fin64
+      now rewrite (parse_dump_exact F32 F64 print32 print64 parse32 parse64 fin32 fin64 lv fv
                      print32_shape print64_shape parse32_print32 parse64_print64 indent v H).
-    - exact (reparsed_eq F32 F64 print32 print64 eq32 eq64 fin32 fin64 eq32_refl eq64_refl v H).
+    - exact (reparsed_eq F32 F64 print32 print64 eq32 eq64 fin32 fin64 lv eq32_refl eq64_refl v H).
   Qed.
 
   (* the value obtained is exactly `reparsed v` (same tree; numbers carry their printed text as
      source, small integer types come back as int32, 64-bit ones as int64) and the whole text up to
      the terminating NUL is consumed *)
   Theorem parse_dump_exact : forall (indent : Z) (v : json), wf v = true ->
-    parse_at F32 F64 parse32 parse64 (dump_top true indent v) = Ok (reparsed v) [0%N].
+    parse_at F32 F64 parse32 parse64 lv fv (dump_top true indent v) = Ok (reparsed v) [0%N].
   Proof.
-    exact (parse_dump_exact F32 F64 print32 print64 parse32 parse64 fin32 fin64
+    exact (parse_dump_exact F32 F64 print32 print64 parse32 parse64 fin32 fin64 lv fv
              print32_shape print64_shape parse32_print32 parse64_print64).
   Qed.
 
@@ -71,24 +74,24 @@ Section Statements.
     forall before cur after, all_ws before -> all_ws cur -> stopr after ->
       load fuel (before ++ dump true ind cur v ++ after) = Ok (reparsed v) after.
   Proof.
-    exact (load_dump F32 F64 print32 print64 parse32 parse64 fin32 fin64
+    exact (load_dump F32 F64 print32 print64 parse32 parse64 fin32 fin64 lv fv
              print32_shape print64_shape parse32_print32 parse64_print64).
   Qed.
 
   (* Mathematical equality (same integers as elements of Z, not only up to the conversion that
      operator== performs).  FULL STATEMENT (false, see same_refuted below):
         forall indent v, wf v = true -> exists v', parse (dump_top true indent v) = Some v' /\ json_same v' v = true
-     What is missing: uint32 values above INT32_MAX and uint64 values above INT64_MAX are printed as
-     plain decimal literals, which primitive::load types as int32 / int64 (known finding
-     unsigned_above_signed_max).  Proved under the exact guard `ints_fit`: *)
-  Theorem parse_dump_same_partial : forall (indent : Z) (v : json), wf v = true -> ints_fit F32 F64 v = true ->
+     What is missing: uint64 values above INT64_MAX and, with the pinned primitive::load (lv = false), uint32
+     values above INT32_MAX are printed as decimal literals that primitive::load types as int64 / int32
+     (known finding unsigned_above_signed_max).  Proved under the exact guard `ints_fit lv`: *)
+  Theorem parse_dump_same_partial : forall (indent : Z) (v : json), wf v = true -> ints_fit F32 F64 lv v = true ->
     exists v', parse (dump_top true indent v) = Some v' /\ json_same v' v = true.
   Proof.
     intros indent v H Hfit. exists (reparsed v). split.
     - unfold Model.parse.
-      now rewrite (Proofs.parse_dump_exact F32 F64 print32 print64 parse32 parse64 fin32 fin64
+      now rewrite (Proofs.parse_dump_exact F32 F64 print32 print64 parse32 parse64 fin32 fin64 lv fv
                      print32_shape print64_shape parse32_print32 parse64_print64 indent v H).
-    - exact (reparsed_same F32 F64 print32 print64 eq32 eq64 fin32 fin64 eq32_refl eq64_refl v H Hfit).
+    - exact (reparsed_same F32 F64 print32 print64 eq32 eq64 fin32 fin64 lv eq32_refl eq64_refl v H Hfit).
   Qed.
 
   (* Determinism: an object is determined by the finite map its insertions denote (last binding of
@@ -134,7 +137,7 @@ Proof. repeat split; intros []; vm_compute; reflexivity. Qed.
 
 Notation tjson := (json bool bool).
 Definition tdump := dump_top bool bool tprint tprint.
-Definition tparse_json := parse bool bool tparse tparse.
+Definition tparse_json := parse bool bool tparse tparse false false.
 Definition twf := wf bool bool tfin tfin.
 Definition teq := json_eq bool bool Bool.eqb Bool.eqb.
 Definition tsame := json_same bool bool Bool.eqb Bool.eqb.
@@ -201,6 +204,20 @@ Theorem same_refuted :
              v' = JNum (PInt KI32 (-294967296)) [52; 48; 48; 48; 48; 48; 48; 48; 48; 48]%N.
 Proof. split; [vm_compute; reflexivity|]. eexists; split; [vm_compute; reflexivity|]; split; [vm_compute; reflexivity|]; split; vm_compute; reflexivity. Qed.
 
+(* with fixes/C14-1 (literals typed by value) the same uint32 comes back as the int64 4000000000 ... *)
+Example same_u32_with_c14 :
+  let v : tjson := JNum (PInt KU32 4000000000) [] in
+  exists v', parse bool bool tparse tparse true true (tdump true 0 v) = Some v' /\ tsame v' v = true /\
+             v' = JNum (PInt KI64 4000000000) [52; 48; 48; 48; 48; 48; 48; 48; 48; 48]%N.
+Proof. eexists; split; [vm_compute; reflexivity|]; split; vm_compute; reflexivity. Qed.
+
+(* ... while a uint64 above INT64_MAX still does not, in either variant *)
+Theorem same_u64_refuted : forall lv fv,
+  let v : tjson := JNum (PInt KU64 18446744073709551615) [] in
+  twf v = true /\
+  exists v', parse bool bool tparse tparse lv fv (tdump true 0 v) = Some v' /\ teq v' v = Some true /\ tsame v' v = false.
+Proof. intros [] []; (split; [vm_compute; reflexivity|]); eexists; (split; [vm_compute; reflexivity|]); split; vm_compute; reflexivity. Qed.
+
 (* an uninitialised (none) entry is printed as {} and comes back as an empty object *)
 Example none_not_in_domain :
   tparse_json (tdump true 0 (JObj [ ([107]%N, JNone) ])) = Some (JObj [ ([107]%N, JObj []) ]).
@@ -209,3 +226,4 @@ Proof. vm_compute; reflexivity. Qed.
 Print Assumptions key_escape_refuted.
 Print Assumptions stale_source_refuted.
 Print Assumptions same_refuted.
+Print Assumptions same_u64_refuted.
